@@ -20,7 +20,12 @@ import ext  # noqa: E402
 from values import I, F, B, S, BY, UNK, var, reg, opt, rec, tup, union  # noqa: E402
 
 TYPES = values.TYPES_QUICK + [F, B, var(opt(S)), rec(("x", opt(I)), ("y", var(S))), var(union(I, S)), reg(2, reg(2, I)),
-                              rec(("y", I), ("x", var(F)), ("a", S)), var(rec(("b", I), ("a", I)))]
+                              rec(("y", I), ("x", var(F)), ("a", S)), var(rec(("b", I), ("a", I))),
+                              # wide records and tuples: 12 fields of mixed types (keys "10", "11" sort before "2" as strings),
+                              # and a record whose names are numerals in a non-numeric order
+                              values.tup(I, I, I, I, I, I, I, I, I, I, F, B), var(values.tup(I, F, I, F, I, F, I, F, I, F, I, B)),
+                              rec(*[("f%02d" % (11 - k), (I, F, B)[k % 3]) for k in range(12)]),
+                              rec(("10", I), ("9", F), ("1", B))]
 ERRS = (ValueError, TypeError, RuntimeError, IndexError, KeyError, NotImplementedError, AttributeError)
 
 
